@@ -310,6 +310,135 @@ fn run_case(store_idx: &[usize], tuple: &[usize], collateral: bool, perms: bool)
     o
 }
 
+
+// ---- language level: block names are the only thing that tells input blocks apart ----------------------
+
+/// names that differ as identifiers but may meet after case folding or collide with the collateral block's key
+const LANG_NAMES: [&str; 8] = ["a", "A", "b", "aB", "Ab", "collateral", "Collateral", "x"];
+
+fn lang_source(names: &[&str], collateral: bool, many: bool) -> String {
+    let mut s = String::from("party S;\ntx t() {\n");
+    for n in names {
+        s.push_str(&format!("    input{} {n} {{\n        from: S,\n        min_amount: Ada(1),\n    }}\n", if many { "*" } else { "" }));
+    }
+    if collateral {
+        s.push_str("    collateral {\n        from: S,\n        min_amount: Ada(1),\n    }\n");
+    }
+    s.push_str(&format!("    output {{\n        to: S,\n        amount: {} - fees,\n    }}\n}}\n", names.join(" + ")));
+    s
+}
+
+fn run_lang(names: &[&str], collateral: bool, many: bool, n_utxos: usize) -> Outcome {
+    let mut o = Outcome::default();
+    o.evals = 1;
+    let src = lang_source(names, collateral, many);
+    let detail = json!({"source": src, "utxos_at_S": n_utxos, "level": "language"});
+    let tx = match crate::engine::panics::catch(|| crate::common::pipeline::lower_source(&src)) {
+        Ok(Ok(mut txs)) => match txs.remove("t") {
+            Some(t) => t,
+            None => {
+                o.class("lang:no-tx");
+                return o;
+            }
+        },
+        Ok(Err(_)) => {
+            // e.g. a name the grammar reserves, or two names the analyzer calls duplicates: nothing to judge
+            o.class("lang:front-end-rejects");
+            return o;
+        }
+        Err(_) => {
+            o.class("lang:front-end-panics(C12)");
+            return o;
+        }
+    };
+    let cs: Vec<Content> = (0..n_utxos).map(|_| Content { addr: 0, amt: [2, 0, 0] }).collect();
+    let store = c03::make_store(&cs);
+    let mut args: tx3_tir::reduce::ArgMap = Default::default();
+    args.insert("s".into(), tx3_tir::reduce::ArgValue::Address(c03::addr(0)));
+    let staged = AnyTir::V1Beta0(tx).apply_args(&args).and_then(|t| t.apply_fees(0)).and_then(|t| t.reduce());
+    let Ok(staged) = staged else {
+        o.class("lang:apply-failed");
+        return o;
+    };
+    let res = match pollster::block_on(tx3_resolver::inputs::resolve(staged, &store)) {
+        Ok(r) => r,
+        Err(e) => {
+            // refusing is always allowed by the property when the store cannot serve all blocks
+            if std::env::var("VERIF_DEBUG").is_ok() {
+                eprintln!("lang refused: {e:?}\n{src}");
+            }
+            o.class("lang:resolution-refused");
+            if n_utxos >= names.len() + collateral as usize {
+                o.class("lang:refused-although-enough-utxos");
+            }
+            o.key(hash64(&(src, n_utxos)));
+            return o;
+        }
+    };
+    o.key(hash64(&(src.clone(), n_utxos)));
+    let AnyTir::V1Beta0(t) = &res;
+    let mut sels: Vec<(String, Vec<tx3_tir::model::core::UtxoRef>)> = vec![];
+    for inp in &t.inputs {
+        if let tir::Expression::EvalParam(p) = &inp.utxos {
+            if let tir::Param::Set(tir::Expression::UtxoSet(set)) = p.as_ref() {
+                sels.push((inp.name.clone(), set.iter().map(|u| u.r#ref.clone()).collect()));
+                continue;
+            }
+        }
+        o.violate(Violation::new("language|block-left-unbound", format!("input block {} has no UTxO set after resolution", inp.name)).with_detail(detail.clone()));
+        return o;
+    }
+    if sels.len() != names.len() {
+        o.violate(
+            Violation::new("language|block-count-differs", format!("{} input blocks written, {} in the resolved template", names.len(), sels.len()))
+                .with_detail(detail.clone()),
+        );
+        return o;
+    }
+    o.class("lang:resolved");
+    let mut shared = false;
+    for i in 0..sels.len() {
+        for j in i + 1..sels.len() {
+            if sels[i].1.iter().any(|r| sels[j].1.contains(r)) {
+                shared = true;
+                let kind = if names[i] == names[j] {
+                    "same-name-twice"
+                } else if names[i].eq_ignore_ascii_case(names[j]) {
+                    "names-differ-only-in-case"
+                } else if names[i].eq_ignore_ascii_case("collateral") || names[j].eq_ignore_ascii_case("collateral") {
+                    "block-named-like-collateral"
+                } else {
+                    "other"
+                };
+                o.violate(
+                    Violation::new(
+                        format!("language|utxo-bound-to-two-blocks|{kind}"),
+                        format!("input blocks `{}` and `{}` of one transaction are bound to the same UTxO", names[i], names[j]),
+                    )
+                    .with_detail(detail.clone()),
+                );
+            }
+        }
+    }
+    // emitted input list = every selected UTxO exactly once
+    let selected: usize = sels.iter().map(|s| s.1.len()).sum();
+    if let Ok(Ok(reduced)) = crate::engine::panics::catch(|| res.clone().reduce()) {
+        let mut c = compiler(&PP::default());
+        if let Ok(Ok(compiled)) = crate::engine::panics::catch(|| c.compile(&reduced)) {
+            if let Ok(rec) = txdecode::decode_tx(&compiled.payload) {
+                if rec.inputs.len() != selected && !shared {
+                    o.violate(
+                        Violation::new("language|emitted|input-count-differs", format!("{} UTxOs selected, {} inputs emitted", selected, rec.inputs.len()))
+                            .with_detail(detail.clone()),
+                    );
+                }
+                o.class("lang:compiled");
+            }
+        }
+    }
+    o
+}
+
 impl Prop for C04 {
     fn id(&self) -> &'static str {
         "C04"
@@ -321,7 +450,9 @@ impl Prop for C04 {
              overlapping block types (9 types: single/many, lovelace / token thresholds, equal and overlapping refs) x with/without collateral; \
              every assignment of names to source positions (k <= 3); every iteration order of the candidate set of the first block and of the second block. \
              Oracle: pairwise disjoint selections (collateral exempt), every block sound w.r.t. what earlier blocks took, emitted input list = \
-             union of selections without duplicates. Non-trivial = resolution returned (Ok or Err) and was judged; distinct = (store, tuple, collateral).",
+             union of selections without duplicates. Language level: programs with 2-3 input blocks named from [a, A, b, aB, Ab, collateral, Collateral, x] (every ordered pair / triple, \
+             equal names included) x with/without a collateral block x single/many x 0..4 UTxOs at the party, through parse / analyze / lower / apply_args / resolve / compile: \
+             blocks that reach resolution must be bound to disjoint sets and the emitted input count must equal the number selected. Non-trivial = resolution returned (Ok or Err) and was judged; distinct = (store, tuple, collateral).",
             if tier.is_thorough() { 4 } else { 3 }
         )
     }
@@ -361,9 +492,45 @@ impl Prop for C04 {
             }
         }
         let _ = stores;
+        // language level: every ordered pair and triple of names (the first two possibly equal) x collateral x single/many x 0..4 UTxOs
+        let n = LANG_NAMES.len();
+        for a in 0..n {
+            for b in 0..n {
+                // a == b: two blocks written with the very same name are still two blocks
+                for c in (0..=n).filter(|c| *c == n || (*c != a && *c != b)) {
+                    let mut names = vec![a, b];
+                    if c < n {
+                        names.push(c);
+                    }
+                    for collateral in [false, true] {
+                        for many in [false, true] {
+                            sink.case(|| json!({"kind": "language", "names": names, "collateral": collateral, "many": many}));
+                        }
+                    }
+                }
+            }
+        }
     }
 
     fn run(&self, case: &Value) -> Outcome {
+        if case["kind"] == "language" {
+            let names: Vec<&str> = case["names"].as_array().map(|a| a.iter().filter_map(|x| x.as_u64().map(|x| LANG_NAMES[x as usize])).collect()).unwrap_or_default();
+            let mut total = Outcome::default();
+            for n_utxos in 0..=4 {
+                let o = run_lang(&names, case["collateral"].as_bool().unwrap_or(false), case["many"].as_bool().unwrap_or(false), n_utxos);
+                total.evals += o.evals;
+                total.nontrivial.extend(o.nontrivial);
+                for (k, v) in o.classes {
+                    *total.classes.entry(k).or_default() += v;
+                }
+                for v in o.violations {
+                    if !total.violations.iter().any(|x| x.signature == v.signature) {
+                        total.violations.push(v);
+                    }
+                }
+            }
+            return total;
+        }
         let tuple: Vec<usize> = case["tuple"]
             .as_array()
             .map(|a| a.iter().filter_map(|x| x.as_u64().map(|x| x as usize)).collect())
